@@ -14,7 +14,7 @@ import numpy as np
 
 from common import qlit, qlist, zlit, dyadic, coqc_many, parse_evals, parse_zlist, frac
 
-THEOREMS = ["C20_ops_annihilate_constants", "C20_first_derivatives_exact_on_linear",
+THEOREMS = ["C20_rows_act_through_their_coefficients", "C20_ops_annihilate_constants", "C20_first_derivatives_exact_on_linear",
             "C20_mixed_exact_on_bilinear", "C20_second_exact_on_quadratic_interior",
             "C20_rows_stay_in_grid", "C20_admt_is_divergence_form",
             "C20_admt_annihilates_constants", "C20_admt_isotropic_is_laplacian",
@@ -266,12 +266,28 @@ def run(ctx):
         "in Model/C20_Admt.v (no convergence-in-the-limit statement is proved)",
     ]
     ctx.rebuild()
-    ctx.proofs("Properties.C20", THEOREMS, extra_modules=("Model.C20_Check", "Proofs.C20_Check"))
+    ctx.proofs("Properties.C20", THEOREMS, extra_modules=("Model.C20_Check", "Proofs.C20_Check", "Proofs.C20_Source"))
 
     import cherab
     from common import REPO
     assert list(cherab.__path__) == [REPO + "/cherab"], cherab.__path__
     from cherab.tools.inversions import admt_utils
+
+    # ---- source tie: the per-cell program of generate_derivative_operators, translated from the current source,
+    # has the model's coefficients for EVERY grid size and cell (kernel-checked by case analysis) -------------------
+    import c20_translate
+    from common import coqc
+    try:
+        src_txt, src_summary = c20_translate.translate(REPO)
+        path = ctx.write_gen("Source.v", src_txt)
+        ok_src, out_src = coqc(path)
+        ok_src = ok_src and "Closed under the global context" in out_src
+        ctx.coverage["source_tie"] = src_summary
+    except c20_translate.TranslateError as e:
+        ok_src, out_src = False, "translator (fail-closed): %s" % e
+    ctx.obligation("Gen/C20/Source.v: generate_derivative_operators translated from the source has the model's stencil coefficients "
+                   "and scalings for every grid size and cell (src_*_is_model, src_scale_is_model, closed under the global context)",
+                   "tie", ok_src, out_src[-700:] if not ok_src else "")
 
     rng = ctx.rng
     quick = ctx.quick
